@@ -546,6 +546,36 @@ func checkC07(c *Ctx, r *Report) {
 		}
 	}
 	_ = strings.Contains
+
+	// ---- R8 ---------------------------------------------------------------
+	r8 := r.Rule("C07-R8", "E1/E6", 2, "inbound wiring: the constructor of each host installs the host's own newStreamHandler as the network's stream handler on every path that returns a host")
+	for _, q := range []struct{ ctor, typ, pkg string }{{basicP + ".NewHost", "BasicHost", basicP}, {blankP + ".NewBlankHost", "BlankHost", blankP}} {
+		f := r8.need(q.ctor)
+		if f == nil {
+			continue
+		}
+		hk := "(*" + q.pkg + "." + q.typ + ").newStreamHandler"
+		installs := findInstrs(f, func(in ssa.Instruction) bool {
+			if !calleeNameIs(in, "SetStreamHandler") {
+				return false
+			}
+			a := callArgs(in.(ssa.CallInstruction))
+			g := installedFunc(a[len(a)-1])
+			return g != nil && (fnKey(g) == hk || strings.HasPrefix(fnKey(g), hk))
+		})
+		okRet := func(in ssa.Instruction) bool {
+			ret, ok := in.(*ssa.Return)
+			if !ok {
+				return false
+			}
+			if errResultIndex(f) >= 0 {
+				return isNilConst(retVal(ret, errResultIndex(f)))
+			}
+			return !isNilConst(retVal(ret, 0))
+		}
+		w, n := (&Cut{Fn: f, Target: okRet, Sep: inSet(installs)}).Run(c)
+		r8.Check(w == "" && len(installs) >= 1, q.ctor+": installs "+q.typ+".newStreamHandler on the network", f.Pos(), n+1, "", "inbound streams are never negotiated: every remote NewStream to this host hangs or is reset", w)
+	}
 }
 
 // wrapperAlloc: v is (an interface made from) a freshly allocated struct of the named type.
